@@ -568,8 +568,8 @@ func marginBoxContentLayout(context *layoutContext, mBox *bo.MarginBox) Box {
 		panic(fmt.Sprintf("resumeAt should be nil, got %v", tmp.resumeAt))
 	}
 
-	for _, absBox := range positionedBoxes {
-		absoluteLayout(context, absBox, mBox, &positionedBoxes, 0, nil)
+	for i := 0; i < len(positionedBoxes); i++ { // note that positionedBoxes may grow over the loop
+		absoluteLayout(context, positionedBoxes[i], mBox, &positionedBoxes, 0, nil)
 	}
 
 	box := newBox_.Box()
